@@ -83,7 +83,14 @@ func otherFileSystemDir(ref string) string {
 	return ""
 }
 
+// hostileDscText: what a listed .dsc holds when it is a real one - with a Files field of its own
+// that reaches out of the directory. Nobody asked for the files a listed file lists.
+const hostileDscText = "Format: 3.0 (quilt)\nSource: pkg\nBinary: pkg\nArchitecture: any\nVersion: 1.0-1\nMaintainer: A B <a@b.c>\nFiles:\n 00000000000000000000000000000000 23 ../outside/victim\n 00000000000000000000000000000000 23 ../outside/victim2\n 00000000000000000000000000000000 1 sub/inner\n 00000000000000000000000000000000 5 pkg_1.0.orig.tar.gz\n"
+
 func upContent(f UpFile) []byte {
+	if f.Seed == -1 {
+		return []byte(hostileDscText)
+	}
 	b := make([]byte, f.Size)
 	x := uint32(f.Seed)*2654435761 + 12345
 	for i := range b {
@@ -141,6 +148,14 @@ func genUploadCase(t *rapid.T) UploadCase {
 	}
 	if rapid.IntRange(0, 5).Draw(t, "dstLink") == 0 && last.Kind != "remove" {
 		c.DstLink = 1 + rapid.IntRange(0, len(c.Files)).Draw(t, "dstLinkAt")
+	}
+	if c.Handle == "changes" && rapid.IntRange(0, 2).Draw(t, "realDsc") == 0 {
+		for i := range c.Files {
+			if strings.HasSuffix(c.Files[i].Name, ".dsc") && plainName(c.Files[i].Name) && c.Files[i].Listed == 0 {
+				c.Files[i].Seed, c.Files[i].Size = -1, len(hostileDscText)
+				break
+			}
+		}
 	}
 	if rapid.IntRange(0, 3).Draw(t, "spelled") == 0 {
 		c.Spelling = rapid.IntRange(1, 3).Draw(t, "spelling")
@@ -628,7 +643,7 @@ func upNames(fs []UpFile) []string {
 
 var specC20 = Register(&Spec[UploadCase]{
 	Prop: "C20", Name: "upload",
-	Rule:  "histories of 1..3 operations (Copy/Move into d1|d2, Remove) on one .dsc or .changes handle over a fresh scratch tree root/{src,src/sub,d1,d2,outside}; 0..5 referenced files (sizes 0, 1, 7, 300, 32767..32769, 100000; one plain name in twenty is 200..255 bytes long; one file in ten is listed with a size that is not its real one - the hashes are made up anyway, nothing in the statement makes Copy/Move verify either); a quarter of the uploads list adversarial names ('../outside/victim', '../d1/planted', 'sub/x', absolute, '..', '.', '/', '//', '../', 'sub/../../outside/victim') and/or carry a literal 'Filename:' field pointing elsewhere, and a third of those have no Files field at all (Checksums-Sha256 only) or list the adversarial names in Checksums-Sha256 only; in a quarter of the cases both destinations already hold same-named files of the same length with other bytes (leftovers of an earlier upload); in a fifth of the cases d2 is on another file system (/dev/shm, when there is one), where a Move may fail as a whole but must not half-succeed; in a sixth of the cases the destination of the last operation holds a planted symbolic link to root/outside/victim under the name of a referenced file or of the control file; in an eighth the control file lists itself (refusing is fine, but then nothing may have moved and the control file is not in the destination); in a quarter (half of the self-listing ones) the handle comes from ParseDsc / ParseChanges(reader, path) with the path spelled src/./x.dsc, src/../src/x.dsc or //src/x.dsc; an operation whose destination is the directory the upload already lives in (also spelled d1/../src/.) must leave that directory bit-identical whatever it returns; the last operation optionally runs with ONE planted fault at step i in {file 0..n-1, control file}: source deleted, source replaced by a non-empty directory, a non-empty directory squatting on the destination name, destination directory missing or a regular file. Oracle: success (plain names, no fault) => all files and the control file byte-identical in the destination (Move: gone from source; Remove: gone), handle.Filename == dest/base; fault => an error, no regular control file in the destination, for Move/Remove the control file intact at its source; always => root/outside bit-identical, no destination file carries outside content, d1/planted untouched when d1 is not involved. Non-trivial: >= 2 files with a fault at step >= 1, or non-plain names; distinct by case.",
+	Rule:  "histories of 1..3 operations (Copy/Move into d1|d2, Remove) on one .dsc or .changes handle over a fresh scratch tree root/{src,src/sub,d1,d2,outside}; 0..5 referenced files (sizes 0, 1, 7, 300, 32767..32769, 100000; one plain name in twenty is 200..255 bytes long; one file in ten is listed with a size that is not its real one - the hashes are made up anyway, nothing in the statement makes Copy/Move verify either); a quarter of the uploads list adversarial names ('../outside/victim', '../d1/planted', 'sub/x', absolute, '..', '.', '/', '//', '../', 'sub/../../outside/victim') and/or carry a literal 'Filename:' field pointing elsewhere, and a third of those have no Files field at all (Checksums-Sha256 only) or list the adversarial names in Checksums-Sha256 only; in a quarter of the cases both destinations already hold same-named files of the same length with other bytes (leftovers of an earlier upload); in a fifth of the cases d2 is on another file system (/dev/shm, when there is one), where a Move may fail as a whole but must not half-succeed; in a sixth of the cases the destination of the last operation holds a planted symbolic link to root/outside/victim under the name of a referenced file or of the control file; in a third of the .changes cases a listed .dsc is a real one whose own Files field names ../outside/victim and sub/inner (nobody asked for the files a listed file lists); in an eighth the control file lists itself (refusing is fine, but then nothing may have moved and the control file is not in the destination); in a quarter (half of the self-listing ones) the handle comes from ParseDsc / ParseChanges(reader, path) with the path spelled src/./x.dsc, src/../src/x.dsc or //src/x.dsc; an operation whose destination is the directory the upload already lives in (also spelled d1/../src/.) must leave that directory bit-identical whatever it returns; the last operation optionally runs with ONE planted fault at step i in {file 0..n-1, control file}: source deleted, source replaced by a non-empty directory, a non-empty directory squatting on the destination name, destination directory missing or a regular file. Oracle: success (plain names, no fault) => all files and the control file byte-identical in the destination (Move: gone from source; Remove: gone), handle.Filename == dest/base; fault => an error, no regular control file in the destination, for Move/Remove the control file intact at its source; always => root/outside bit-identical, no destination file carries outside content, d1/planted untouched when d1 is not involved. Non-trivial: >= 2 files with a fault at step >= 1, or non-plain names; distinct by case.",
 	Check: checkUploadCase,
 })
 
